@@ -211,7 +211,7 @@ func c08Run(c *mc.Ctx) {
 		}
 	}
 	// (c3) well-formed values read one after another from one decoder / reader without Release (consumed prefix)
-	hv := len(c02HistValues())
+	hv := c02HistN
 	for a := 0; a < hv; a++ {
 		for b := 0; b < hv; b++ {
 			for _, dec := range []string{skDecStream, skDecBytesR, skReaderSkip} {
